@@ -154,14 +154,23 @@ def rule_usage(run):
     if not blk_loop:
         raise AnalysisError("instance output loop not found")
     bl = blk_loop[0]
-    raises = [r for r in walk_local(bl) if isinstance(r, ast.Raise)]
+    all_raises = [r for r in walk_local(bl) if isinstance(r, ast.Raise)]
+    inp_raises = [r for r in all_raises if any("is_input()" in g for g in guards(init.node, r, pm) if g.startswith("if "))]
+    raises = [r for r in all_raises if r not in inp_raises]
+    ok = len(inp_raises) == 1
+    run.ob(ok, "EntityTemplate.__init__", file=rp.rel, line=bl.lineno, detail="instance-output-to-input-port", expected="raise when an instance output is connected to an input port of the parent", found="ok" if ok else "missing: an input port can be driven by an instance")
+    if inp_raises:
+        g = guards(init.node, inp_raises[0], pm)
+        allowed_i = {"if isinstance(sig_root, Port) and sig_root.is_input()", "unless not decl.is_output()", "if isinstance(block, Entity)"}
+        extra = [x for x in g if x not in allowed_i]
+        run.ob(not extra, "EntityTemplate.__init__", file=rp.rel, line=inp_raises[0].lineno, detail="instance-output-to-input-port.guards", expected="no further condition", found=str(extra) if extra else "ok")
     ok = len(raises) == 1
     run.ob(ok, "EntityTemplate.__init__", file=rp.rel, line=bl.lineno, detail="instance-output-collision", expected="raise when an instance output drives an already written root", found="ok" if ok else f"{len(raises)} raise statements")
     if raises:
         g = guards(init.node, raises[0], pm)
-        allowed = {"if sig_root in written_in", "unless not decl.is_output()", "if isinstance(block, Entity)"}
+        allowed = {"if sig_root in written_in", "unless not decl.is_output()", "if isinstance(block, Entity)", "unless isinstance(sig_root, Port) and sig_root.is_input()"}
         extra = [x for x in g if x not in allowed]
-        missing = [x for x in allowed if x not in g]
+        missing = [x for x in allowed if x not in g and not x.startswith("unless isinstance(sig_root")]
         run.ob(not extra and not missing, "EntityTemplate.__init__", file=rp.rel, line=raises[0].lineno, detail="instance-output-collision.guards",
                expected="exactly: block is an instance, port is an output, root already written", found=("extra " + str(extra) if extra else "") + (" missing " + str(missing) if missing else "") or "ok")
     t = src(bl)
